@@ -36,6 +36,36 @@ def ceilDiv (a b : Nat) : Nat := (a + b - 1) / b
 def pack (fields : List (Nat × Nat)) : Bytes :=
   fields.flatMap (fun f => beBytes f.1 f.2)
 
+/-! ### strings, dicts, tables, slices (added with the handshake / message / parser sites) -/
+
+/-- a Python `str` literal: its code points (the same function as `Http.ofString`) -/
+def str (s : String) : List Nat := s.toList.map (·.toNat)
+
+/-- `s.lower()` for a `str` whose characters are ASCII or have no lower-case mapping: `A`..`Z`
+    move to `a`..`z`, everything else stays.  (Python's `str.lower` applies the full Unicode
+    mapping; the strings at the translated sites come from `bytes.decode('ascii', 'replace')`
+    -- ASCII or U+FFFD -- or are ASCII literals / base64 text, where the two coincide.  The
+    differential test draws from exactly this alphabet.) -/
+def strLower (s : List Nat) : List Nat := s.map (fun c => if 65 ≤ c ∧ c ≤ 90 then c + 32 else c)
+
+/-- a `dict` with `str` keys and values as an association list, one entry per key; lookup takes
+    the first entry with the key (so a dict filled by `d[k] = v` in program order is the list of
+    those assignments, newest first) -/
+abbrev Dict := List (List Nat × List Nat)
+
+/-- `d.get(k)` (`none` = `None`) -/
+def dictGet? (d : Dict) (k : List Nat) : Option (List Nat) := (d.find? (fun p => p.1 = k)).map (·.2)
+
+/-- `k in d` -/
+def dictHas (d : Dict) (k : List Nat) : Bool := (dictGet? d k).isSome
+
+/-- `x in S` for a set of integers given as sorted inclusive ranges (a generated table) -/
+def inRanges (rs : List (Nat × Nat)) (c : Nat) : Bool := rs.any (fun r => r.1 ≤ c && c ≤ r.2)
+
+/-- `struct.Struct('!H').unpack(b)[0]` and friends: one big-endian field (Python raises
+    `struct.error` unless `len(b)` is the field width; theorems carry the length) -/
+def unpack1 (_width : Nat) (b : Bytes) : Nat := beVal b
+
 /-! ### line-protocol glue (driver only) -/
 
 class Parse (α : Type) where
@@ -60,16 +90,47 @@ instance : Parse Rat := ⟨fun s =>
   | [n] => mkRat (intOfStr n) 1
   | [n, d] => mkRat (intOfStr n) (natOfStr d)
   | _ => 0⟩
-/-- bytes travel as `x<hex>` (so that the empty string is a token) -/
-instance : Parse (List Nat) := ⟨fun s => (bytesOfHex (s.drop 1).toString).getD []⟩
+/-- `1.22.333` -> [1, 22, 333] (the empty string is the empty list) -/
+def dotted (s : String) : List Nat := if s.isEmpty then [] else (s.splitOn ".").map natOfStr
+
+/-- bytes travel as `x<hex>` (so that the empty string is a token), a `str` as `u<code points
+    in decimal, separated by dots>` -/
+def listOfTok (s : String) : List Nat :=
+  if s.startsWith "u" then dotted (s.drop 1).toString else (bytesOfHex (s.drop 1).toString).getD []
+
+instance : Parse (List Nat) := ⟨listOfTok⟩
+/-- a dict travels as `d<key>=<value>;…` with keys and values as `str` tokens (without the `u`) -/
+instance : Parse Dict := ⟨fun s =>
+  let body := (s.drop 1).toString
+  if body.isEmpty then [] else
+    (body.splitOn ";").map (fun kv =>
+      match kv.splitOn "=" with
+      | [k, v] => (dotted k, dotted v)
+      | _ => ([], []))⟩
 instance {α : Type} [Parse α] : Parse (Option α) := ⟨fun s => if s == "N" then none else some (parse s)⟩
+/-- a function parameter (an external function such as `int()`) travels as the finite table of the
+    values it takes at the arguments it is applied to: `f<argument>:<value>;…` (arguments as
+    dotted decimals); elsewhere it takes the value of the empty token -/
+instance {β : Type} [Parse β] : Parse (List Nat → β) := ⟨fun s =>
+  let body := (s.drop 1).toString
+  let entries : List (List Nat × String) :=
+    if body.isEmpty then [] else
+      (body.splitOn ";").map (fun kv =>
+        match kv.splitOn ":" with
+        | [k, v] => (dotted k, v)
+        | _ => ([], ""))
+  fun x => match entries.find? (fun e => e.1 = x) with
+    | some e => parse e.2
+    | none => parse ""⟩
 
 instance : Render Nat := ⟨toString⟩
 instance : Render Int := ⟨toString⟩
 instance : Render Bool := ⟨fun b => if b then "True" else "False"⟩
 instance : Render Unit := ⟨fun _ => "None"⟩
 instance : Render Rat := ⟨fun r => toString r.num ++ "/" ++ toString r.den⟩
-instance : Render (List Nat) := ⟨fun b => "x" ++ hexOfBytes b⟩
+/-- bytes (and a `str` of characters below 256) as `x<hex>`, any other `str` as `u<dotted decimals>` -/
+instance : Render (List Nat) := ⟨fun b =>
+  if b.all (· < 256) then "x" ++ hexOfBytes b else "u" ++ ".".intercalate (b.map toString)⟩
 instance {α : Type} [Render α] : Render (Option α) := ⟨fun o => match o with | none => "N" | some a => render a⟩
 instance {α β : Type} [Render α] [Render β] : Render (α × β) := ⟨fun p => render p.1 ++ "," ++ render p.2⟩
 instance {α : Type} [Render α] : Render (Except Err α) := ⟨fun r =>
